@@ -117,6 +117,9 @@ func c12Marshal(m proto.Message) []byte {
 	return b
 }
 
+// node ids: small, agreeing in their low bits, at the uint32 boundaries (spaced so that +j stays distinct)
+var c12Nodes = []uint32{1, 257, 65537, 1<<24 + 1, 1<<31 + 1, 1<<32 - 8, 17, 1000}
+
 func c12Infinity() []byte {
 	p := make([]byte, 96)
 	p[0] = 0xc0
@@ -289,7 +292,7 @@ func TestVerifC12(t *testing.T) {
 		whats := map[uint32]string{}
 		desc := []string{}
 		for j := 0; j < nrep; j++ {
-			node := uint32(1 + j)
+			node := c12Nodes[(i+j)%len(c12Nodes)] + uint32(j) // sparse, large node ids; distinct within a reply set
 			var pb *hotstuffpb.Block
 			what := ""
 			switch {
@@ -326,6 +329,57 @@ func TestVerifC12(t *testing.T) {
 		}
 		var want hotstuff.Hash
 		copy(want[:], req)
+		// ---- the quorum function as gorums drives it: again after every arriving reply, on the replies
+		// received so far; and once more on the full set (same answer class expected both times) ----
+		{
+			arrived := map[uint32]*hotstuffpb.Block{}
+			order := make([]uint32, 0, len(replies))
+			for n := range replies {
+				order = append(order, n)
+			}
+			sort.Slice(order, func(a, b int) bool { return order[a] < order[b] })
+			r.Shuffle(len(order), func(a, b int) { order[a], order[b] = order[b], order[a] })
+			incOK := true
+			for _, n := range order {
+				arrived[n] = replies[n]
+				var g *hotstuffpb.Block
+				var f, p bool
+				func() {
+					defer func() {
+						if recover() != nil {
+							p = true
+						}
+					}()
+					g, f = qspec{}.RequestBlockQF(&hotstuffpb.BlockHash{Hash: req}, arrived)
+				}()
+				anyNow := false
+				for _, pb := range arrived {
+					if hotstuffpb.BlockFromProto(proto.Clone(pb).(*hotstuffpb.Block)).Hash() == want {
+						anyNow = true
+					}
+				}
+				switch {
+				case p:
+					incOK = false
+					v.Oracle(false, "fetch:quorum-function-panicked", "RequestBlockQF panicked on a prefix of the replies", meta)
+				case f && hotstuffpb.BlockFromProto(proto.Clone(g).(*hotstuffpb.Block)).Hash() != want:
+					incOK = false
+					v.Oracle(false, "fetch:returned-block-hash-differs", fmt.Sprintf("after %d of %d replies the quorum function returned a block with another hash than requested", len(arrived), len(replies)), meta)
+				case f != anyNow:
+					incOK = false
+					v.Oracle(false, "fetch:incremental-answer-wrong", fmt.Sprintf("after %d of %d replies: found=%v although a matching reply present=%v", len(arrived), len(replies), f, anyNow), meta)
+				}
+			}
+			g2, f2 := qspec{}.RequestBlockQF(&hotstuffpb.BlockHash{Hash: req}, replies)
+			if f2 != found || (f2 && hotstuffpb.BlockFromProto(proto.Clone(g2).(*hotstuffpb.Block)).Hash() != want) {
+				incOK = false
+				v.Oracle(false, "fetch:repeated-call-differs", "calling RequestBlockQF again on the same replies gives another answer class", meta)
+			}
+			if incOK {
+				v.Oracle(true, "", "", nil)
+			}
+			v.Count("incremental-calls")
+		}
 		// ---- oracle ----
 		observed := "None"
 		anyMatch := false
